@@ -24,6 +24,9 @@ def history_pool():
     P.append(("abort-loop", "x := 0\nfor { x += 1 }", 20))
     P.append(("abort-in-calls", "var f\nf = func(n) { for { n += 1 } }\nreturn f(0)", 15))
     P.append(("module-cache", "m := import(\"m1\")\nm.next()\nm.next()\nreturn m.next()", 0))
+    # modules given by a host Importable as bytes, array, sync map, map, error: changed in place by the script
+    P.append(("module-values-changed", "b := import(\"cbytes\")\na := import(\"carr\")\ns := import(\"csm\")\nm := import(\"cmap\")\ne := import(\"cerr\")\n"
+              "b[0] += 10\na[0] = 99\na[1][0] = 98\ns.k = 5\ns.inner.z = 1\nm.x += 1\nm.b[0] = 0\ne.Message = \"changed\"\nreturn [b, a, s.k, len(s.inner), m.x, m.b, string(e)]", 0))
     P.append(("try-left-open", "for i := 0; i < 3; i++ { try { if i == 1 { continue }; x := i } finally { y := 1 } }\nreturn [][0]", 0))
     P.append(("many-locals", "\n".join("v%d := %d" % (i, i) for i in range(200)) + "\nreturn v0 / 0", 0))
     return P
@@ -73,6 +76,7 @@ OBS = [
  ("try { return [][1] } catch e { return string(e) } finally { z := 1 }", []),
  ("a := 1\nb := func() { a += 1; return a }\nreturn [b(), b(), a]", []),
  ("return undefined", []),
+ ("b := import(\"cbytes\")\na := import(\"carr\")\ns := import(\"csm\")\nm := import(\"cmap\")\ne := import(\"cerr\")\nb[0] += 10\na[1][0] += 1\ns.k += 1\nm.x += 1\nm.b[0] += 1\nreturn [b, a, s.k, len(s.inner), m.x, m.b, string(e)]", []),
  ("global (gx, gy)\nreturn [gx, gy]", []),
  ("global gx\nf := func() { return gx }\nreturn [f(), gx == undefined]", []),
 ]
@@ -111,7 +115,7 @@ def run(rep, br, proofs, rng, tier):
     for c in cases:
         out = impl.get(c["id"])
         if out is None: continue
-        if out == "(obs-compile-error)": continue
+        if out == "(obs-compile-error)": raise RuntimeError("C07: the observed script of case %s does not compile:\n%s" % (c["id"], c["obs"]))
         if not out.startswith("(history"): fails.append((c, "unexpected: " + out[:200])); continue
         sx = vlib.parse_sexp(out)
         used, again, fresh, unch = vlib.sexp_str(sx[2][1]), vlib.sexp_str(sx[3][1]), vlib.sexp_str(sx[4][1]), sx[5]
